@@ -8,7 +8,7 @@ import (
 func init() {
 	props = append(props, prop{
 		ID: "C05", Title: "Per-connection job serialization: FIFO, one at a time, exactly once", Level: "exploration",
-		Rule: "history monitor over Conn.Execute/MustExecute on real accepted connections: 1-16 submitters x 1-4 connections x {nbio's inline default, goroutine-per-call, bounded taskpool} executor x job durations x seeded delays at execute.afterAppend/execute.afterJob/close.beforeTeardown x GOMAXPROCS {1,2,16} x Close racing the submissions; exactly-once decided in the final state (all submitters returned, no executor closure pending, nobody inside), mutual exclusion by an inside counter and interval sweep, real-time FIFO by a sweep cross-checked with porcupine on histories <= 30 jobs. evaluations = histories (cases); a case is non-trivial only if more than one drainer generation ran AND at least once a drainer finished the last queued job while another submitter was inside Execute/MustExecute on that connection (the two-party hand-over window, observed at the execute.afterJob hook); distinct by case index",
+		Rule: "history monitor over Conn.Execute/MustExecute on real accepted connections: 1-16 submitters x 1-4 connections x {nbio's inline default, goroutine-per-call, bounded taskpool} executor x job durations x seeded delays at execute.afterAppend/execute.afterJob/close.beforeTeardown x GOMAXPROCS {1,2,16} x Close racing the submissions; exactly-once decided in the final state (all submitters returned, no executor closure pending, nobody inside), mutual exclusion by an inside counter and interval sweep, real-time FIFO by a sweep cross-checked with porcupine on histories <= 30 jobs. evaluations = histories (cases); a case is non-trivial only if more than one drainer generation ran AND at least once a drainer finished the last queued job while another submitter was inside Execute/MustExecute on that connection (the two-party hand-over window, observed at the execute.afterJob hook); distinct by case index The close callback of every connection queues a close-handling job with MustExecute (as nbhttp does): no job accepted by Execute may run behind it - such a job was appended to a connection that was closed already.",
 		Assumptions: append([]string{
 			"the logical clock is one atomic counter: tick order is consistent with happens-before, so A.ret < B.call implies A's submit returned before B's was invoked",
 			"hook callbacks (build tag verif) only delay; VerifJobs/VerifBacklog read under the connection's own mutex",
